@@ -1823,6 +1823,21 @@ pub mod verif_hooks {
         (service, EventFeed(tx))
     }
 
+    /// The connection task reports a negotiated inbound substream of this service's protocol.
+    pub fn substream_opened(feed: &EventFeed, queue: &CommandQueue, peer: PeerId, connection_id: ConnectionId, substream: crate::substream::Substream) -> bool {
+        feed.0
+            .try_send(InnerTransportEvent::SubstreamOpened {
+                peer,
+                protocol: ProtocolName::from("/verif/keepalive"),
+                fallback: None,
+                direction: crate::protocol::Direction::Inbound,
+                connection_id,
+                substream,
+                opening_permit: crate::protocol::connection::Permit::new(queue.1.clone()),
+            })
+            .is_ok()
+    }
+
     /// Whether this protocol's handles of the peer's connections are active: (primary, secondary).
     pub fn connections_active(service: &TransportService, peer: &PeerId) -> Option<(bool, Option<bool>)> {
         service
